@@ -74,3 +74,6 @@ func (s *Stage) VerifCleanStrays() { s.cleanStrays(time.Hour * 24) }
 
 // VerifCleanWaiting runs cleanWaiting.
 func (s *Stage) VerifCleanWaiting() { s.cleanWaiting() }
+
+// VerifCleanCache runs the cache ageing (normally triggered every cacheCnt files).
+func (s *Stage) VerifCleanCache() { s.cleanCache() }
